@@ -25,6 +25,7 @@ import (
 	"github.com/AdguardTeam/AdGuardHome/verifsim/env"
 	"github.com/AdguardTeam/AdGuardHome/verifsim/kernel"
 	"github.com/AdguardTeam/AdGuardHome/verifsim/model"
+	"github.com/AdguardTeam/AdGuardHome/verifsim/sched"
 	"github.com/miekg/dns"
 	"pgregory.net/rapid"
 )
@@ -53,6 +54,18 @@ type Op struct {
 	// offset from the deadline of the running pause the clock is moved to
 	// (negative: just before it).
 	Ms int64 `json:"ms,omitempty"`
+	// list_fault: Allow says which list's file in the data directory is hit,
+	// How what takes its place ("loop": a symbolic link to itself, "dir": a
+	// directory, "dangling": a symbolic link to nowhere).
+	Allow bool   `json:"allow,omitempty"`
+	How   string `json:"how,omitempty"`
+	// par (scenarios with DelayedLoop only): Sub[0] is a set_rules call,
+	// Sub[1:] are queries; they and the body of the filtering module's updates
+	// loop run as concurrent tasks under the cooperative scheduler seeded with
+	// Seed, which preempts with probability Pct percent at lock boundaries.
+	Seed uint64 `json:"seed,omitempty"`
+	Pct  int    `json:"pct,omitempty"`
+	Sub  []Op   `json:"sub,omitempty"`
 }
 
 // Scenario is one case.
@@ -68,6 +81,10 @@ type Scenario struct {
 	Allow        []string        `json:"allow_list"`
 	ClientOff    bool            `json:"client_filtering_off"` // 192.0.2.2 is a persistent client with filtering off
 	Zone         map[string][]RR `json:"zone"`                 // "name|qtype" -> answer section
+	// DelayedLoop: the body of the filtering module's updates loop is run by
+	// the harness (after each rule change, or as a task of a concurrent phase)
+	// instead of by its own goroutine.
+	DelayedLoop bool `json:"delayed_loop,omitempty"`
 	Ops          []Op            `json:"ops"`
 }
 
@@ -183,11 +200,17 @@ func Gen(t *rapid.T, tier string) any {
 			}
 		}
 	}
+	sc.DelayedLoop = rapid.Bool().Draw(t, "delayed_loop")
 	maxOps := 25
 	if tier == "thorough" {
 		maxOps = 60
 	}
 	pauseRuns := false
+	faulty := false
+	genQuery := func() Op {
+		return Op{Kind: "query", Name: rapid.SampledFrom(qnames).Draw(t, "qname"), Qtype: rapid.SampledFrom(qts).Draw(t, "qtype"),
+			Addr: rapid.SampledFrom(addrs).Draw(t, "addr"), Proto: rapid.SampledFrom(protos).Draw(t, "proto")}
+	}
 	for i, n := 0, rapid.IntRange(3, maxOps).Draw(t, "n_ops"); i < n; i++ {
 		var op Op
 		k := rapid.IntRange(0, 99).Draw(t, "kind")
@@ -197,9 +220,29 @@ func Gen(t *rapid.T, tier string) any {
 			k = 99 // a running pause: move the clock to its deadline soon
 		}
 		switch {
+		case k < 58 || (k < 66 && !sc.DelayedLoop):
+			op = genQuery()
+		case k < 66:
+			// A custom-rules change, the updates loop and queries, concurrently.
+			op = Op{Kind: "par", Seed: rapid.Uint64().Draw(t, "par_seed"), Pct: rapid.SampledFrom([]int{10, 20, 50, 80}).Draw(t, "par_pct")}
+			op.Sub = append(op.Sub, Op{Kind: "set_rules", Rules: genRules(t, false, 5)})
+			// (Distinct names: the upstream's exchanges are told apart by name.)
+			for _, name := range rapid.SliceOfNDistinct(rapid.SampledFrom(qnames), 2, 5, rapid.ID[string]).Draw(t, "par_names") {
+				q := genQuery()
+				q.Name = name
+				op.Sub = append(op.Sub, q)
+			}
 		case k < 70:
-			op = Op{Kind: "query", Name: rapid.SampledFrom(qnames).Draw(t, "qname"), Qtype: rapid.SampledFrom(qts).Draw(t, "qtype"),
-				Addr: rapid.SampledFrom(addrs).Draw(t, "addr"), Proto: rapid.SampledFrom(protos).Draw(t, "proto")}
+			// A storage fault on the file of one of the two lists in the data
+			// directory, and its end (the generator follows whether a fault is
+			// active so that a heal is not wasted).
+			if faulty && rapid.IntRange(0, 2).Draw(t, "lf_heal") != 0 {
+				op = Op{Kind: "list_heal"}
+				faulty = false
+				break
+			}
+			op = Op{Kind: "list_fault", Allow: rapid.Bool().Draw(t, "lf_allow"), How: rapid.SampledFrom([]string{"loop", "loop", "dir", "dangling"}).Draw(t, "lf_how")}
+			faulty = true
 		case k < 77:
 			op = Op{Kind: "set_rules", Rules: genRules(t, false, 5)}
 		case k < 83:
@@ -288,15 +331,21 @@ type runner struct {
 	crossed bool
 	aaaaOff bool
 	user    []string
-	eng     *model.Engines
-}
-
-func (r *runner) rebuild() (err error) {
-	if r.eng != nil {
-		r.eng.Close()
-	}
-	r.eng, err = model.NewEngines(model.RuleLists{User: r.user, Block: [][]string{r.sc.Block}, Allow: [][]string{r.sc.Allow}})
-	return err
+	// cands are the rule configurations one of which is in force: exactly one
+	// except while a storage fault on a list file, or an overlapping rule
+	// change, leaves it open which (see c02_wide.go).
+	cands []*cand
+	dir   string
+	up    *env.Upstream
+	// fault is the active storage fault; window is set from its injection
+	// until a configuration is known to have been applied with all files
+	// intact.
+	fault       *listFault
+	window      bool
+	acceptedKey string
+	// abandon: a concurrent phase ended in a deadlock; the parked tasks hold the
+	// node's locks.
+	abandon bool
 }
 
 func (r *runner) answer(req *dns.Msg) *dns.Msg {
@@ -352,7 +401,7 @@ func (r *runner) api(method, path string, body any) error {
 
 // offending returns the first record of the answer that the reference model
 // says is blocked for this client, with aaaaOff hint stripping applied.
-func (r *runner) offending(ans []RR, addr netip.Addr, clientName string) (idx int, what string, anyAllowed bool) {
+func (r *runner) offending(eng *model.Engines, ans []RR, addr netip.Addr, clientName string) (idx int, what string, anyAllowed bool) {
 	for i, rr := range ans {
 		type probe struct {
 			host string
@@ -377,7 +426,7 @@ func (r *runner) offending(ans []RR, addr netip.Addr, clientName string) (idx in
 			}
 		}
 		for _, p := range probes {
-			switch m := r.eng.Check(p.host, p.qt, addr, clientName); m.Verdict {
+			switch m := eng.Check(p.host, p.qt, addr, clientName); m.Verdict {
 			case model.Blocked:
 				return i, fmt.Sprintf("%s %s (rule %s)", rr.T, p.host, m.Rule), anyAllowed
 			case model.Allowed:
@@ -389,6 +438,26 @@ func (r *runner) offending(ans []RR, addr netip.Addr, clientName string) (idx in
 }
 
 func (r *runner) query(op Op) error {
+	addr := netip.MustParseAddr(op.Addr)
+	logBefore := r.n.QLog.Len()
+	start := time.Now()
+	prot := r.protAt(start)
+	rep := r.n.Do(&dnsnode.Query{Proto: op.Proto, Addr: netip.AddrPortFrom(addr, 40000), Name: op.Name, Qtype: op.Qtype})
+	end := time.Now()
+	r.c.SimTime += end.Sub(start)
+	kernel.Wait()
+	first := r.crossed
+	r.crossed = false
+	if !r.pausedTill.IsZero() && start.Before(r.pausedTill) && !end.Before(r.pausedTill) {
+		r.c.Probe("pause_deadline_crossed")
+	}
+	return r.judge(op, rep, prot, r.protAt(end), first, logBefore)
+}
+
+// judge compares what one query was answered with what the reference model
+// expects.  logBefore is the length of the query log before the query, or -1
+// if the log record cannot be told apart (concurrent phase).
+func (r *runner) judge(op Op, rep *dnsnode.Reply, prot, protEnd, first bool, logBefore int) error {
 	addr := netip.MustParseAddr(op.Addr)
 	name := op.Name
 	key := fmt.Sprintf("%s|%d", name, op.Qtype)
@@ -409,18 +478,6 @@ func (r *runner) query(op Op) error {
 	if r.sc.ClientOff && op.Addr == "192.0.2.2" {
 		clientName, clientFilt = "nofilter", false
 	}
-	logBefore := r.n.QLog.Len()
-	start := time.Now()
-	prot := r.protAt(start)
-	rep := r.n.Do(&dnsnode.Query{Proto: op.Proto, Addr: netip.AddrPortFrom(addr, 40000), Name: name, Qtype: op.Qtype})
-	end := time.Now()
-	r.c.SimTime += end.Sub(start)
-	kernel.Wait()
-	first := r.crossed
-	r.crossed = false
-	if !r.pausedTill.IsZero() && start.Before(r.pausedTill) && !end.Before(r.pausedTill) {
-		r.c.Probe("pause_deadline_crossed")
-	}
 	if rep.WireErr != nil {
 		return kernel.Violationf("malformed-reply", "%s %s over %s: %v", name, dns.Type(op.Qtype), op.Proto, rep.WireErr)
 	}
@@ -430,7 +487,7 @@ func (r *runner) query(op Op) error {
 		r.c.Probe("aaaa_disabled_query")
 		return nil // answered locally before any filtering (C01 checks that)
 	}
-	if prot != r.protAt(end) {
+	if prot != protEnd {
 		// The pause ended while the query was in flight: the statement does not
 		// say which state applies to it.
 		r.c.Probe("query_straddles_deadline")
@@ -442,9 +499,41 @@ func (r *runner) query(op Op) error {
 	if !r.pausedTill.IsZero() && !prot {
 		r.c.Probe("query_during_pause")
 	}
-	reqStage := model.Match{}
-	if prot && clientFilt {
-		reqStage = r.eng.Check(name, op.Qtype, addr, clientName)
+	// The verdict of every configuration that may be in force; only what all
+	// of them agree on is asserted.
+	var (
+		reqStage   model.Match
+		idx        = -1
+		what       string
+		anyAllowed bool
+	)
+	var blockedSets [][]bool
+	for i, cd := range r.cands {
+		rs := model.Match{}
+		if prot && clientFilt {
+			rs = cd.eng.Check(name, op.Qtype, addr, clientName)
+		}
+		ix, wh, aa := -1, "", false
+		if prot && clientFilt && rs.Verdict == model.NoMatch {
+			ix, wh, aa = r.offending(cd.eng, zone, addr, clientName)
+			set := make([]bool, len(zone))
+			for k := range zone {
+				j, _, _ := r.offending(cd.eng, zone[k:k+1], addr, clientName)
+				set[k] = j >= 0
+			}
+			blockedSets = append(blockedSets, set)
+		}
+		if i == 0 {
+			reqStage, idx, what, anyAllowed = rs, ix, wh, aa
+			continue
+		}
+		if rs.Verdict != reqStage.Verdict || (ix >= 0) != (idx >= 0) {
+			r.c.Probe("query_in_doubt_disagree")
+			return nil
+		}
+	}
+	if len(r.cands) > 1 {
+		r.c.Probe("query_in_doubt_agree")
 	}
 	if reqStage.Verdict == model.Blocked {
 		r.c.Probe("blocked_at_request_stage")
@@ -462,11 +551,7 @@ func (r *runner) query(op Op) error {
 		upAns = append(upAns, buildRR(name, op.Qtype, rr))
 	}
 	applicable := prot && clientFilt && reqStage.Verdict != model.Allowed
-	idx := -1
-	what := ""
 	if applicable {
-		var anyAllowed bool
-		idx, what, anyAllowed = r.offending(zone, addr, clientName)
 		if anyAllowed {
 			r.c.Probe("record_allowlisted")
 		}
@@ -490,6 +575,16 @@ func (r *runner) query(op Op) error {
 			r.c.Probe("offender_not_first")
 		}
 		if msg := model.CheckBlockedReply(r.bc, name, op.Qtype, nil, rep.Msg); msg != "" {
+			if logBefore < 0 && mixtureEscapes(blockedSets) {
+				// Every configuration that may be in force blocks a record of
+				// this answer, but not the same one, and the records of one
+				// answer are matched one by one while the rule change goes on.
+				v := kernel.Violationf("response-judged-by-mixed-configurations", "%s %s from %s: the configuration before and the one after the overlapping rule change both block a record of the upstream answer (first: #%d %s), but not the same record; the client must get the %s blocking response under either, and got: %s\nupstream answer: %v\nclient reply:\n%s", name, dns.Type(op.Qtype), op.Addr, idx, what, r.bc.Mode, msg, model.RRKeys(upAns), rep.Msg)
+				if r.c.Tolerate(v) {
+					return nil
+				}
+				return v
+			}
 			return kernel.Violationf("response-not-blocked", "%s %s from %s: upstream answer record #%d %s is blocked, client must get the %s blocking response: %s\nupstream answer: %v\nclient reply:\n%s", name, dns.Type(op.Qtype), op.Addr, idx, what, r.bc.Mode, msg, model.RRKeys(upAns), rep.Msg)
 		}
 		// Nothing of the upstream answer may be delivered.
@@ -500,8 +595,11 @@ func (r *runner) query(op Op) error {
 				}
 			}
 		}
+		if len(r.cands) > 1 {
+			r.c.Probe("doubt_all_agree_blocked")
+		}
 		// The query log keeps the original answer.
-		if r.n.QLog.Len() > logBefore {
+		if logBefore >= 0 && r.n.QLog.Len() > logBefore {
 			e, _ := r.n.QLog.Last()
 			// (IPv6 hints may have been stripped from it when AAAA is disabled,
 			// so only its presence and shape are compared.)
@@ -555,9 +653,18 @@ func (r *runner) apply(op Op) error {
 			return err
 		}
 		r.user = op.Rules
+		if r.sc.DelayedLoop {
+			r.n.Filter.VerifDrainInitializer()
+		}
 		kernel.Wait()
 		r.c.Fault("live_rule_change")
-		return r.rebuild()
+		return r.install()
+	case "list_fault":
+		return r.injectFault(op)
+	case "list_heal":
+		return r.heal()
+	case "par":
+		return r.par(op)
 	case "protection":
 		body := map[string]any{"enabled": op.On}
 		if op.Ms > 0 {
@@ -610,16 +717,19 @@ func (r *runner) apply(op Op) error {
 func Run(t *testing.T, scAny any, c *kernel.Ctx) error {
 	sc := scAny.(*Scenario)
 	dnsnode.InitProcess()
+	sched.Init()
+	sched.SpawnAllow = []string{"enableProtectionAfterPause"}
 	dir, err := kernel.TempDir("c02")
 	if err != nil {
 		return err
 	}
 	defer os.RemoveAll(dir)
 	return kernel.Bubble(t, func() error {
-		r := &runner{sc: sc, c: c, prot: sc.Protection, aaaaOff: sc.AAAADisabled, user: sc.User,
+		r := &runner{sc: sc, c: c, prot: sc.Protection, aaaaOff: sc.AAAADisabled, user: sc.User, dir: dir,
 			bc: model.BlockConf{Mode: sc.Mode, V4: v4Block, V6: v6Block, TTL: sc.TTL}}
 		up := &env.Upstream{Addr: "sim-upstream:53", Answer: r.answer, Latency: 3 * time.Millisecond}
-		cfg := &dnsnode.Config{Dir: dir, ListServer: env.NewListServer(), Upstream: up, UpTimeout: 2 * time.Second}
+		r.up = up
+		cfg := &dnsnode.Config{Dir: dir, ListServer: env.NewListServer(), Upstream: up, UpTimeout: 2 * time.Second, NoUpdatesLoop: sc.DelayedLoop}
 		cfg.Filtering = filtering.Config{BlockingMode: filtering.BlockingMode(sc.Mode), BlockingIPv4: v4Block, BlockingIPv6: v6Block, BlockedResponseTTL: sc.TTL,
 			ProtectionEnabled: sc.Protection, FilteringEnabled: sc.Filtering, UserRules: sc.User, FiltersUpdateIntervalHours: 24}
 		cfg.BlockLists = []dnsnode.ListSpec{{ID: 10, URL: "https://lists.invalid/b.txt", Name: "b", Text: strings.Join(sc.Block, "\n") + "\n", Enabled: true}}
@@ -632,12 +742,17 @@ func Run(t *testing.T, scAny any, c *kernel.Ctx) error {
 		if err != nil {
 			return err
 		}
-		defer n.Close()
+		defer func() {
+			if !r.abandon {
+				n.Close()
+			}
+		}()
 		r.n = n
-		if err = r.rebuild(); err != nil {
+		if err = r.setCands(r.conf(nil)); err != nil {
 			return err
 		}
-		defer func() { r.eng.Close() }()
+		r.acceptedKey = r.conf(nil).key()
+		defer r.closeCands()
 		kernel.Wait()
 		for i, op := range sc.Ops {
 			c.Eventf("op %d %s", i, op.Kind)
@@ -657,7 +772,7 @@ func Run(t *testing.T, scAny any, c *kernel.Ctx) error {
 var Prop = &kernel.Property{
 	ID:    "C02",
 	Level: "exploration",
-	Rule: "seeded cases (rapid): a zone of upstream answer sections (CNAME chains 0-3, 0-3 A/AAAA, HTTPS records with ipv4hint/ipv6hint, unrelated TXT/MX/NS, randomly permuted) served by the simulated upstream; rules over CNAME targets, IP literals and query names in custom rules, a block list and an allow list (||, |, @@, $important, $dnstype, $client, hosts-style); queries of 4 types over 6 transports from 3 sources interleaved with live set_rules / protection on, off and timed pause / blocking-mode / AAAA-disabled changes and clock movements (fixed steps; to just before, exactly at and past the deadline of the running pause); " +
+	Rule: "seeded cases (rapid): a zone of upstream answer sections (CNAME chains 0-3, 0-3 A/AAAA, HTTPS records with ipv4hint/ipv6hint, unrelated TXT/MX/NS, randomly permuted) served by the simulated upstream; rules over CNAME targets, IP literals and query names in custom rules, a block list and an allow list (||, |, @@, $important, $dnstype, $client, hosts-style); queries of 4 types over 6 transports from 3 sources interleaved with live set_rules / protection on, off and timed pause / blocking-mode / AAAA-disabled changes and clock movements (fixed steps; to just before, exactly at and past the deadline of the running pause); storage faults on the file of the block list or of the allow list in the data directory (replaced by a symlink loop, a directory or a dangling link, healed later) between rule changes, answers then being judged by what every configuration that may be in force agrees on; in half of the cases the filtering module's updates loop is scheduled by the harness, with phases in which a set_rules call, the updates loop and 2-5 queries run as concurrent tasks interleaved at lock boundaries by a seeded cooperative scheduler, each answer judged by what the configurations before and after the call agree on; " +
 		"non-trivial = the reference model found at least one answer that must be replaced AND one that must be delivered unchanged; distinct = distinct scenario digests",
 	Gen: Gen,
 	New: func() any { return &Scenario{} },
@@ -667,7 +782,7 @@ var Prop = &kernel.Property{
 	},
 	Real:        []string{"internal/dnsforward (pipeline, filterDNSResponse, HTTPS hint filtering, blocking-mode responses)", "internal/filtering (CheckHostRules, engines)", "dnsproxy request path incl. cache", "internal/client.Storage", "urlfilter"},
 	Stub:        []string{"upstream resolver (answer sections from the scenario's zone)", "client sockets", "query log / statistics (recorders)", "wall clock (synctest)"},
-	Assumptions: []string{"urlfilter's matching of one rule set against one host name / IP literal is trusted", "CNAME targets are matched as type CNAME, addresses as A/AAAA, hints as HTTPS for $dnstype purposes (documented behaviour of response filtering)"},
-	FaultKinds:  []string{"live_rule_change", "live_flag_change", "protection_pause", "clock_advance"},
-	ProbeNames:  []string{"blocked_by_response", "delivered_unchanged", "offender_CNAME", "offender_A", "offender_AAAA", "offender_HTTPS", "offender_not_first", "record_allowlisted", "protection_off_query", "filtering_off_query", "qname_allowlisted_query", "blocked_at_request_stage", "aaaa_disabled_query", "ipv6_hints_stripped", "negative_upstream_answer", "pause_deadline_crossed", "first_query_after_pause", "blocked_first_after_pause", "query_during_pause", "query_straddles_deadline", "op_skipped_no_pause"},
+	Assumptions: []string{"urlfilter's matching of one rule set against one host name / IP literal is trusted", "CNAME targets are matched as type CNAME, addresses as A/AAAA, hints as HTTPS for $dnstype purposes (documented behaviour of response filtering)", "while the file of a list cannot be read, and during an overlapping rule change, the statement does not say which of the configurations accepted so far is in force: only what all of them (with and without the unreadable list) agree on is asserted"},
+	FaultKinds:  []string{"live_rule_change", "live_flag_change", "protection_pause", "clock_advance", "list_file_fault", "concurrent_rule_change"},
+	ProbeNames:  []string{"blocked_by_response", "delivered_unchanged", "offender_CNAME", "offender_A", "offender_AAAA", "offender_HTTPS", "offender_not_first", "record_allowlisted", "protection_off_query", "filtering_off_query", "qname_allowlisted_query", "blocked_at_request_stage", "aaaa_disabled_query", "ipv6_hints_stripped", "negative_upstream_answer", "pause_deadline_crossed", "first_query_after_pause", "blocked_first_after_pause", "query_during_pause", "query_straddles_deadline", "op_skipped_no_pause", "fault_healed", "query_in_doubt_agree", "query_in_doubt_disagree", "doubt_all_agree_blocked", "doubt_window_closed", "par_query", "sched_steps", "sched_switches", "op_skipped_fault_active", "op_skipped_no_fault", "op_skipped_no_scheduler"},
 }
